@@ -33,11 +33,17 @@ def shrink_reconcile(case):
     return _shrink_lists(case, "|", int_fields=(0,), list_fields=((1, ","), (10, ";"), (11, ";")))
 
 
+def shrink_sync(case):
+    # paused|selOk|r|slots|pol|strat|ru|del|gen|stored|cc|lim|tmpl|fuid|fdel|store|pods|names|faults
+    return _shrink_lists(case, "|", int_fields=(2,), list_fields=((3, ","), (15, ";"), (16, ";"), (18, ";")))
+
+
 # ---------------------------------------------------------------- engines
 
 ENGINES = {
     "ordinals": {"trivial_tags": {"noann", "empty", "bad"}},
     "reconcile": {"trivial_tags": {"noop.par", "noop.mono", "deleting", "bad"}, "shrink": shrink_reconcile},
+    "sync": {"trivial_tags": {"paused", "badselector", "ok", "err", "bad"}, "shrink": shrink_sync},
 }
 
 
@@ -102,14 +108,58 @@ def proj_panic(case, o):
     return o.get("out") == "panic"
 
 
+SY_RULE = ("sync: random worlds for one set: 0-5 stored ControllerRevisions (proper / arbitrary / engineered-to-collide names, textual / numeric / absent hash "
+           "labels, owner in {this set, another controller, nobody}, selector labels and/or upgrade marker, data = current template or others), 0-7 cached pods "
+           "(canonical / zero-padded / unparsable / foreign names, owner x label-match x phase x terminating x revision label), cached set vs API copy (same uid / "
+           "other uid / gone, deletion timestamp on either), paused, unconvertible selector, history limit 0..3 or 10, collision count, slots, policies, strategies, "
+           "partitions; a third of the cases get 1-2 faults (conflict, not-found, already-exists, invalid, server error, timeout; bursts of conflicts) placed on calls "
+           "that occur in a dry run. non-trivial = not paused / bad selector and at least one write or a fault; distinct = distinct case line")
+
+
+def sy(quick=12000, thorough=150000, proj=None):
+    return {"engine": "sync", "quick": quick, "thorough": thorough, "proj": proj, "extra_seeds": 1}
+
+
+def log_entries(o):
+    return [e for e in o.get("log", "").split(",") if e]
+
+
+def proj_sync_revs(case, o):
+    return ([e for e in log_entries(o) if ":rev:" in e and not e.startswith("get:")], o.get("revs"), o.get("cc"))
+
+
+def proj_sync_all(case, o):
+    return (log_entries(o), o.get("out"))
+
+
+def proj_sync_owner(case, o):
+    return ([e for e in log_entries(o) if e.startswith("patch:") or e == "get:set" or (":pod:" in e) or (":rev:" in e and not e.startswith("get:")) or ":set:" in e], o.get("mut"))
+
+
+def proj_sync_c11(case, o):
+    f = case.split("|")
+    if f[0] == "1" or f[7] == "1" or f[14] == "1":
+        return (log_entries(o), o.get("revs"))
+    return None
+
+
+def proj_sync_history(case, o):
+    return ([e for e in log_entries(o) if e.startswith("delete:rev:")], sorted(x.split(":")[0] for x in o.get("revs", "").split(";") if x))
+
+
 PROPS = {
-    "C03": {"module": "Asts.Props.C03", "claimed": False, "runs": [rc(proj=proj_deletes)], "rule": RC_RULE},
-    "C04": {"module": "Asts.Props.C04", "claimed": False, "runs": [rc(proj=proj_creates)], "rule": RC_RULE},
-    "C05": {"module": "Asts.Props.C05", "claimed": False, "runs": [rc(proj=proj_create_delete)], "rule": RC_RULE},
-    "C07": {"module": "Asts.Props.C07", "claimed": False, "runs": [rc(proj=proj_create_delete)], "rule": RC_RULE},
-    "C12": {"module": "Asts.Props.C12", "claimed": False, "runs": [rc(proj=proj_status)], "rule": RC_RULE},
+    "C08": {"module": "Asts.Props.C08", "claimed": False, "runs": [sy(proj=proj_sync_revs)], "rule": SY_RULE},
+    "C09": {"module": "Asts.Props.C09", "claimed": False, "runs": [sy(proj=proj_sync_all)], "rule": SY_RULE},
+    "C10": {"module": "Asts.Props.C10", "claimed": False, "runs": [sy(proj=proj_sync_owner)], "rule": SY_RULE},
+    "C11": {"module": "Asts.Props.C11", "claimed": False, "runs": [sy(proj=proj_sync_c11)], "rule": SY_RULE},
+    "C13": {"module": "Asts.Props.C13", "claimed": False, "runs": [sy(proj=proj_sync_history)], "rule": SY_RULE},
+    "C03": {"module": "Asts.Props.C03", "runs": [rc(proj=proj_deletes)], "rule": RC_RULE},
+    "C04": {"module": "Asts.Props.C04", "runs": [rc(proj=proj_creates)], "rule": RC_RULE},
+    "C05": {"module": "Asts.Props.C05", "runs": [rc(proj=proj_create_delete)], "rule": RC_RULE},
+    "C07": {"module": "Asts.Props.C07", "runs": [rc(proj=proj_create_delete)], "rule": RC_RULE},
+    "C12": {"module": "Asts.Props.C12", "claimed": False, "runs": [rc(proj=proj_status), sy(quick=6000, proj=lambda c, o: o.get("status"))], "rule": RC_RULE + " || " + SY_RULE},
     "C14": {"module": "Asts.Props.C14", "claimed": False, "runs": [rc(proj=proj_create_delete)], "rule": RC_RULE},
-    "C15": {"module": "Asts.Props.C15", "claimed": False, "runs": [rc(proj=proj_panic)], "rule": RC_RULE},
+    "C15": {"module": "Asts.Props.C15", "claimed": False, "runs": [rc(proj=proj_panic), sy(quick=6000, proj=proj_panic)], "rule": RC_RULE + " || " + SY_RULE},
     "C01": {
         "module": "Asts.Props.C01",
         "runs": [
